@@ -158,7 +158,7 @@ theorem PStage.wrap2 {o c d q s pts L} (h : PStage o c d q s pts L) (n n2 : Stri
 /-- **range phase (no unwrap, no shortcut).** The select after `planSpl`, `LRAPlanner` and the optional comparison
     holds the points of the direct reading's range stage and comparison. -/
 theorem lraPhase_ok (o : Oracles) (c : MCtx) (hn : c.namesOk) (d : LokiDb) (q : LogQuery) (hm : q.matchers.length ≤ 63)
-    (fn : RangeFn) (dur : Nat) (hms : 1000000 ∣ dur) (hd : 0 < dur) (cm : Option Comparison) :
+    (fn : RangeFn) (dur : Nat) (hd : 0 < dur) (cm : Option Comparison) :
     PStage o c d q (cmpOpt cm (lraSel fn dur false (samplesMain c.toCtx q)))
       (cmpStage cm (lraPts fn dur (d.samples.filter (entryMatches o c.toCtx d q)))) [.named "agg_a"] := by
   rw [lraPhase_eq c.toCtx q fn dur cm]
@@ -176,7 +176,7 @@ theorem lraPhase_ok (o : Oracles) (c : MCtx) (hn : c.namesOk) (d : LokiDb) (q : 
   refine ⟨⟨[(.named "agg_a", samplesRenamed c.toCtx q)], by rw [h1, hw], rfl⟩, h2, ?_⟩
   rw [h3, hmain]
   unfold lraBody
-  rw [lra_eval o (d.toDbM c) _ fn dur hms hd (d.samples.filter (entryMatches o c.toCtx d q)) (by simp [List.lookup])]
+  rw [lra_eval o (d.toDbM c) _ fn dur hd (d.samples.filter (entryMatches o c.toCtx d q)) (by simp [List.lookup])]
   exact having_rep o _ cm _ _ (lraRow_rep _ (lraPts_labels fn dur _))
 
 end Qryn.LogQL
@@ -235,7 +235,7 @@ theorem PStage.join {o c d q s pts L} (h : PStage o c d q s pts L) (hn : c.names
       exact hT1
 
 def finalBody : Sel :=
-  .mk [] false finalCols (some (.withRef (.named "prefinal"))) [] none none [] none
+  .mk [] false matrixFinalCols (some (.withRef (.named "prefinal"))) [] none none [] none
     [.orderBy (.raw "fingerprint") .asc, .orderBy (.raw "timestamp_ns") .asc] none
 
 theorem finalizeMatrix_eq (req : Sel) : finalizeMatrix req = finalBody.with_ [(.named "prefinal", req)] := rfl
@@ -268,7 +268,7 @@ theorem foldl_cmpStep (c : MCtx) (q : MetricQuery) (cm : Option Comparison) (s :
 /-- **plan_metric_correct, class `rangeFn(selector [d]) [cmp]`** (rate, count_over_time, bytes_rate, bytes_over_time;
     the samples path; step ≤ range). -/
 theorem planMetric_range_lra (o : Oracles) (c : MCtx) (hn : c.namesOk) (d : LokiDb) (r : RangeAgg) (fn : RangeFn)
-    (hk : r.kind = .lra fn) (hm : r.sel.matchers.length ≤ 63) (hms : 1000000 ∣ r.durNs) (hd : 0 < r.durNs)
+    (hk : r.kind = .lra fn) (hm : r.sel.matchers.length ≤ 63) (hd : 0 < r.durNs)
     (hs : takesShortcut (.range r) = false) (hstep : c.stepNs ≤ (r.durNs : Int)) :
     (evalSelA o (d.toDbM c) (planMetric c (.range r))).map normRow = evalMetric o c d (.range r) := by
   have hplan : planMetric c (.range r) =
@@ -276,9 +276,9 @@ theorem planMetric_range_lra (o : Oracles) (c : MCtx) (hn : c.namesOk) (d : Loki
     unfold planMetric
     simp only [MetricQuery.rangeAgg, planSteps, hs, Bool.false_eq_true, if_false, functionOrder, orderRange, hk,
       List.foldl_append, List.foldl_cons, List.foldl_nil, applyStep, foldl_cmpStep, splSel, stepFix_identity c _ _ hstep,
-      matrixLabels, RangeAgg.isUnwrap, MetricQuery.agg?, Bool.false_and, Bool.or_self]
+      matrixLabels, RangeAgg.isUnwrap, MetricQuery.agg?, Bool.false_and, Bool.or_self, Option.isSome_none]
   rw [hplan]
-  have h1 := lraPhase_ok o c hn d r.sel hm fn r.durNs hms hd r.cmp
+  have h1 := lraPhase_ok o c hn d r.sel hm fn r.durNs hd r.cmp
   have h2 := h1.join hn hm (cmpStage_labels _ _ _ (lraPts_labels fn r.durNs _)) (by decide) (by decide)
   rw [h2.final (by decide)]
   unfold evalMetric effWindow metricPoints
@@ -317,12 +317,12 @@ theorem ptLabels_of_regrouped (o : Oracles) (c : Ctx) (d : LokiDb) (q : LogQuery
   · rw [h1, h2]
   · rw [h1, h2]
 
-theorem aggCore_regrouped (fn : AggFn) (pts : List Pt) (h : ∀ p ∈ pts, Regrouped p) : ∀ p ∈ aggCore fn pts, Regrouped p := by
+theorem aggCore_regrouped (fn : AggFn) (pts : List Pt) (h : ∀ p ∈ pts, Regrouped p) : ∀ p ∈ aggCore o fn pts, Regrouped p := by
   intro p hp
   unfold aggCore at hp
   obtain ⟨g, hg, hgp⟩ := List.mem_filterMap.mp hp
   obtain ⟨⟨a, rest, hgr, hk⟩, hall⟩ := groupsBy_head _ pts g hg
-  cases hv : aggVal fn (g.2.map (·.value)) with
+  cases hv : aggVal o fn (g.2.map (·.value)) with
   | none => rw [hv] at hgp; cases hgp
   | some v =>
     rw [hv] at hgp
@@ -372,12 +372,12 @@ theorem PStage.byWithoutTS {o c d q s pts L} (h : PStage o c d q s pts L) (hn : 
       rw [alias_named_beq, beq_eq_false_iff_ne]; str_ne]
     exact hT1
 
-theorem PStage.agg {o c d q s pts L} (h : PStage o c d q s pts L) (fn : AggFn) (hfn : fn ≠ .stddev ∧ fn ≠ .stdvar)
+theorem PStage.agg {o c d q s pts L} (h : PStage o c d q s pts L) (fn : AggFn)
     (cm : Option Comparison) (h2 : Alias.named "lra_main" ∉ L) :
-    PStage o c d q (cmpOpt cm (aggSel fn true s)) (cmpStage cm (aggCore fn pts)) (L ++ [.named "lra_main"]) := by
+    PStage o c d q (cmpOpt cm (aggSel fn true s)) (cmpStage cm (aggCore o fn pts)) (L ++ [.named "lra_main"]) := by
   rw [aggPhase_eq]
   apply h.wrap "lra_main" (by decide) h2 (aggBody fn (cmpHaving cm)) (cmpHaving_notBitSet cm)
-  exact agg_eval o _ _ fn hfn _ pts h.rep (by simp [List.lookup]) cm
+  exact agg_eval o _ _ fn _ pts h.rep (by simp [List.lookup]) cm
 
 end Qryn.LogQL
 
@@ -393,31 +393,25 @@ theorem map_ptLabels_regrouped (o : Oracles) (c : Ctx) (d : LokiDb) (q : LogQuer
   rfl
 
 /-- **plan_metric_correct, class `aggOp by/without (…) (rangeFn(selector [d]) [cmp]) [cmp]`** (samples path, step ≤ range) -/
-theorem planMetric_agg_lra (o : Oracles) (c : MCtx) (hn : c.namesOk) (d : LokiDb) (a : VecAgg) (fn : RangeFn) (g : Grouping)
-    (hk : a.inner.kind = .lra fn) (hg : chosenGrouping a.byPrefix a.bySuffix = some g)
-    (hfn : a.fn ≠ .stddev ∧ a.fn ≠ .stdvar)
-    (hm : a.inner.sel.matchers.length ≤ 63) (hms : 1000000 ∣ a.inner.durNs) (hd : 0 < a.inner.durNs)
+theorem planMetric_agg_lra (o : Oracles) (c : MCtx) (hn : c.namesOk) (d : LokiDb) (a : VecAgg) (fn : RangeFn)
+    (hk : a.inner.kind = .lra fn)
+    (hm : a.inner.sel.matchers.length ≤ 63) (hd : 0 < a.inner.durNs)
     (hs : takesShortcut (.agg a) = false) (hstep : c.stepNs ≤ (a.inner.durNs : Int)) :
     (evalSelA o (d.toDbM c) (planMetric c (.agg a))).map normRow = evalMetric o c d (.agg a) := by
-  have hgr : a.grouped = true := by
-    unfold VecAgg.grouped
-    unfold chosenGrouping at hg
-    cases hb : a.bySuffix with
-    | some x => simp
-    | none => rw [hb] at hg; simp only at hg; rw [hg]; simp
   have hplan : planMetric c (.agg a) =
-      finalizeMatrix (cmpOpt a.cmp (aggSel a.fn true (byWithoutTS c.toCtx (labelConds a.inner.sel).length g
+      finalizeMatrix (cmpOpt a.cmp (aggSel a.fn true (byWithoutTS c.toCtx (labelConds a.inner.sel).length (aggGrouping a)
         (cmpOpt a.inner.cmp (lraSel fn a.inner.durNs false (samplesMain c.toCtx a.inner.sel)))))) := by
     unfold planMetric
-    simp only [MetricQuery.rangeAgg, planSteps, hs, Bool.false_eq_true, if_false, functionOrder, orderAgg, orderRange, hk, hg,
+    simp only [MetricQuery.rangeAgg, planSteps, hs, Bool.false_eq_true, if_false, functionOrder, orderAgg, orderRange, hk,
       List.foldl_append, List.foldl_cons, List.foldl_nil, applyStep, foldl_cmpStep, splSel, stepFix_identity c _ _ hstep,
-      matrixLabels, RangeAgg.isUnwrap, MetricQuery.agg?, hgr, Bool.false_and, Bool.false_or, if_true, planByWithout,
+      matrixLabels, RangeAgg.isUnwrap, MetricQuery.agg?, Option.isSome_some, Bool.false_and, Bool.false_or, if_true, planByWithout,
       Bool.not_false]
   rw [hplan]
-  have h1 := lraPhase_ok o c hn d a.inner.sel hm fn a.inner.durNs hms hd a.inner.cmp
-  have h2 := h1.byWithoutTS hn hm (cmpStage_labels _ _ _ (lraPts_labels fn a.inner.durNs _)) (labelConds a.inner.sel).length g
+  have h1 := lraPhase_ok o c hn d a.inner.sel hm fn a.inner.durNs hd a.inner.cmp
+  have h2 := h1.byWithoutTS hn hm (cmpStage_labels _ _ _ (lraPts_labels fn a.inner.durNs _)) (labelConds a.inner.sel).length
+    (aggGrouping a)
     (by simp only [List.mem_singleton, Alias.named.injEq]; str_ne) (by simp only [List.mem_singleton, Alias.named.injEq]; str_ne)
-  have h3 := h2.agg a.fn hfn a.cmp (by
+  have h3 := h2.agg a.fn a.cmp (by
     simp only [List.mem_append, List.mem_cons, List.not_mem_nil, or_false, Alias.named.injEq, not_or]
     refine ⟨by decide, ?_, ?_⟩ <;> (apply Ne.symm; str_ne))
   rw [h3.final (by
@@ -425,7 +419,9 @@ theorem planMetric_agg_lra (o : Oracles) (c : MCtx) (hn : c.namesOk) (d : LokiDb
     refine ⟨⟨by decide, ?_, ?_⟩, by decide⟩ <;> (apply Ne.symm; str_ne))]
   unfold evalMetric effWindow metricPoints
   simp only [hs, Bool.false_eq_true, if_false, MetricQuery.rangeAgg, MetricQuery.agg?, stepStage, hstep, if_true,
-    rangePoints_lra o c.toCtx d a.inner fn _ _ hk, entryMatchesW_window, aggStage_eq, hg, Option.getD_some]
+    rangePoints_lra o c.toCtx d a.inner fn _ _ hk, entryMatchesW_window, aggStage_eq]
+  show _ = sortBy (rowLe matrixKeys) (List.map Pt.row (List.map (fun p => { p with labels := ptLabels o c.toCtx d a.inner.sel p })
+    (cmpStage a.cmp (aggCore o a.fn (List.map (regroupPt o c.toCtx d a.inner.sel (aggGrouping a)) _)))))
   rw [map_ptLabels_regrouped]
   apply cmpStage_labels
   apply aggCore_regrouped
